@@ -182,9 +182,9 @@ Section Endpoint.
   (* ---------------------------------------------------------------- profiles and the final drop *)
   Definition profiles_in_cs (profiles : list mprofile) : Prop :=
     forall pf, In pf profiles ->
-      lookup cs (pf_name pf) = Some (policy_body c v (pf_rules pf))
+      lookup cs (pf_name pf) = Some (profile_body (ec_profile_fix ec) c v (pf_rules pf))
       /\ (forall r, In r (pf_rules pf) -> rule_ok c e r)
-      /\ pass_free (pf_rules pf) = true.
+      /\ (ec_profile_fix ec = true \/ pass_free (pf_rules pf) = true).
 
   Definition final_rules : list irule := (if c_flowlogs c then [mk [] ANflog] else []) ++ [mk [] (deny c)].
 
@@ -193,6 +193,35 @@ Section Endpoint.
     intros call p. unfold final_rules. destruct (c_flowlogs c); cbn [app].
     - rewrite go_noop by reflexivity. apply go_deny. reflexivity.
     - apply go_deny. reflexivity.
+  Qed.
+
+  (* a profile chain, entered with the accept mark clear and the pass mark in either state *)
+  Lemma profile_chain_exact : forall f rules p ps,
+    (forall r, In r rules -> rule_ok c e r) -> wfp p -> st c false ps (pk_mark p) ->
+    (ec_profile_fix ec = true \/ pass_free rules = true) ->
+    exists ps', body_result c (policy_verdict (e_sets e) rules p) p ps'
+                  (run (S f) cs e (profile_body (ec_profile_fix ec) c v rules) p).
+  Proof.
+    intros f rules p ps Hok [Hw Hv] Hst Hfix. unfold profile_body.
+    destruct (ec_profile_fix ec && has_pass_rule rules) eqn:Eb; cbn [app].
+    - (* the chain starts by clearing the pass mark *)
+      cbn [run]. unfold AClearMark, ASetMaskedMark. rewrite go_mark by reflexivity.
+      set (p1 := set_mark p (apply_mark (lnot32 (c_pass c)) 0 (pk_mark p))).
+      assert (U1 : unmark p1 = unmark p) by reflexivity.
+      assert (S1 : st c false false (pk_mark p1)) by (apply (st_clear_pass c F _ _ _ Hst)).
+      pose proof (policy_chain_exact c e Hmarks f cs rules p1 false Hok (wf_packet_unmark _ _ U1 Hw) S1
+                    (fun H => False_ind _ (Bool.diff_false_true H))) as X.
+      change (pk_ver p1) with (pk_ver p) in X. rewrite Hv in X. cbn [run] in X.
+      rewrite (policy_verdict_unmark _ _ _ _ U1) in X. exists false.
+      destruct (policy_verdict (e_sets e) rules p); cbn [body_result] in *.
+      + destruct X as (q & X1 & X2 & X3). exists q. split; [assumption|split; [congruence|assumption]].
+      + destruct X as (q & X1 & X2). exists q. split; [assumption|congruence].
+      + destruct X as (q & X1 & X2 & X3). exists q. split; [assumption|split; [congruence|assumption]].
+      + destruct X as (q & X1 & X2 & X3). exists q. split; [assumption|split; [congruence|assumption]].
+    - assert (Hpf : pass_free rules = true).
+      { destruct Hfix as [Hf|Hp]; [|exact Hp]. rewrite Hf in Eb. cbn [andb] in Eb. rewrite pass_free_has_pass, Eb. reflexivity. }
+      exists ps. pose proof (policy_chain_exact c e Hmarks f cs rules p ps Hok Hw Hst (fun _ => Hpf)) as X.
+      rewrite Hv in X. exact X.
   Qed.
 
   Lemma profiles_run : forall f profiles p ps,
@@ -205,34 +234,39 @@ Section Endpoint.
     - unfold profile_jumps. cbn [flat_map map profiles_verdict]. fold (profile_jumps c rest). cbn [app].
       destruct (Hin pf (or_introl eq_refl)) as (L & Hok & Hpf).
       rewrite (go_jump e cs _ _ _ _ _ _ (matches_nil e p) L).
-      destruct Hw as [Hw Hv].
-      pose proof (policy_chain_exact c e Hmarks (S f) cs (pf_rules pf) p ps Hok Hw Hst (fun _ => Hpf)) as X.
-      rewrite Hv in X.
-      pose proof (pass_free_no_pass (e_sets e) (pf_rules pf) p Hpf) as NP.
+      destruct (profile_chain_exact (S f) (pf_rules pf) p ps Hok Hw Hst Hpf) as (ps1 & X).
       assert (Hin' : profiles_in_cs rest) by (intros pf' H'; apply Hin; right; exact H').
-      destruct (policy_verdict (e_sets e) (pf_rules pf) p); cbn [body_result final_result] in *.
-      + destruct X as (q & X1 & X2 & X3). exists q.
-        assert (E : go cs e (run (S (S f)) cs e) (mk [accept_set c] AReturn :: profile_jumps c rest ++ final_rules) q = RReturn q).
-        { apply go_return. apply (m_accept_set c F e q true ps X3). }
-        split; [|split; [assumption|eapply st_mark_has; eassumption]].
-        destruct (run (S (S f)) cs e (policy_body c v (pf_rules pf)) p); cbn in X1; try discriminate; inversion X1; subst; exact E.
-      + destruct X as (q & X1 & X2). exists q. rewrite X1. split; [reflexivity|assumption].
-      + exfalso. apply NP. reflexivity.
-      + destruct X as (q & X1 & X2 & X3).
+      set (body := profile_body (ec_profile_fix ec) c v (pf_rules pf)) in *.
+      (* continuing with the next profile: accept clear, pass in either state *)
+      assert (Cont : forall q ps2, collapse (run (S (S f)) cs e body p) = RFall q -> unmark q = unmark p -> st c false ps2 (pk_mark q) ->
+                final_result (profiles_verdict (e_sets e) (map pf_rules rest) p) p
+                  match run (S (S f)) cs e body p with
+                  | RFall p' | RReturn p' => go cs e (run (S (S f)) cs e) (mk [accept_set c] AReturn :: profile_jumps c rest ++ final_rules) p'
+                  | o => o end).
+      { intros q ps2 X1 X2 X3.
         assert (E : go cs e (run (S (S f)) cs e) (mk [accept_set c] AReturn :: profile_jumps c rest ++ final_rules) q
                     = go cs e (run (S (S f)) cs e) (profile_jumps c rest ++ final_rules) q).
-        { apply go_skip. apply (m_accept_set c F e q false ps X3). }
-        pose proof (IH q ps Hin' (wfp_unmark v _ _ X2 (conj Hw Hv)) X3) as Y.
+        { apply go_skip. apply (m_accept_set c F e q false ps2 X3). }
+        pose proof (IH q ps2 Hin' (wfp_unmark v _ _ X2 Hw) X3) as Y.
         rewrite (profiles_verdict_unmark _ _ _ _ X2) in Y.
         assert (G : go cs e (run (S (S f)) cs e) (profile_jumps c rest ++ final_rules) q =
-                    match run (S (S f)) cs e (policy_body c v (pf_rules pf)) p with
+                    match run (S (S f)) cs e body p with
                     | RFall p' | RReturn p' => go cs e (run (S (S f)) cs e) (mk [accept_set c] AReturn :: profile_jumps c rest ++ final_rules) p'
                     | o => o end).
-        { destruct (run (S (S f)) cs e (policy_body c v (pf_rules pf)) p); cbn in X1; try discriminate; inversion X1; subst; symmetry; exact E. }
+        { destruct (run (S (S f)) cs e body p); cbn in X1; try discriminate; inversion X1; subst; symmetry; exact E. }
         rewrite <- G.
         destruct (profiles_verdict (e_sets e) (map pf_rules rest) p); cbn [final_result] in *; try contradiction.
         * destruct Y as (r & Y1 & Y2 & Y3). exists r. split; [assumption|split; [congruence|assumption]].
-        * destruct Y as (r & Y1 & Y2). exists r. split; [assumption|congruence].
+        * destruct Y as (r & Y1 & Y2). exists r. split; [assumption|congruence]. }
+      destruct (policy_verdict (e_sets e) (pf_rules pf) p); cbn [body_result final_result] in *.
+      + destruct X as (q & X1 & X2 & X3). exists q.
+        assert (E : go cs e (run (S (S f)) cs e) (mk [accept_set c] AReturn :: profile_jumps c rest ++ final_rules) q = RReturn q).
+        { apply go_return. apply (m_accept_set c F e q true ps1 X3). }
+        split; [|split; [assumption|eapply st_mark_has; eassumption]].
+        destruct (run (S (S f)) cs e body p); cbn in X1; try discriminate; inversion X1; subst; exact E.
+      + destruct X as (q & X1 & X2). exists q. rewrite X1. split; [reflexivity|assumption].
+      + destruct X as (q & X1 & X2 & X3). eapply Cont; eassumption.
+      + destruct X as (q & X1 & X2 & X3). eapply Cont; eassumption.
   Qed.
 
   (* ---------------------------------------------------------------- before policy *)
